@@ -45,6 +45,7 @@ import TonVerif.Model.Builder
 import TonVerif.Model.BocEntry
 import TonVerif.Proofs.BocRoundTrip
 import TonVerif.Proofs.SrcBocDeser
+import TonVerif.Proofs.SrcBocEmit
 
 namespace TonVerif.Properties.C03
 open TonVerif TonVerif.Model TonVerif.Model.BocForms TonVerif.Spec.Boc TonVerif.Proofs.BocEmit TonVerif.Proofs.BocForms
@@ -316,5 +317,63 @@ theorem c03_roundtrip_src (H : Bytes → Bytes) (t : Cell) (wf : TreeWF H t) (ty
       Generated.BocCells.deserialize bs (Generated.BocCells.liftMk (BocParse.mkCell H)) = some [some (t, p.info)] := by
   obtain ⟨bs, h1, h2, _⟩ := c03_roundtrip H t wf ty p hb nc fuel ord h o hv hn hP
   exact ⟨bs, h1, by rw [c03_src_parser, h2]; rfl⟩
+
+/-! ## the emitter half and the input forms on the working tree's own code (regenerated from the source on every run) -/
+
+section SrcEmit
+open TonVerif.Proofs.SrcBocEmit TonVerif.Generated.BocEmitSrc
+
+/-- SOURCE TIE of the emitter half: `Generated.BocEmitSrc.to_boc` (with `order`, `serialize`) is regenerated on every run from
+`Cell.to_boc` / `Cell.order` / `Cell.serialize` (pytoniq_core/boc/cell.py) and equals the hand model `PCell.toBoc` that
+`c03_roundtrip` is stated with, for every cell object, option set and iteration budget (C04: `c04_src_to_boc`). -/
+theorem c03_src_emitter (fuel : Nat) (p : PCell) (o : Opts) :
+    to_boc fuel p o.hasIdx o.hasCrc o.hasCache o.flags = p.toBoc fuel o := src_toBoc_eq fuel p o
+
+/-- SOURCE TIE of the input forms: `Generated.BocEmitSrc.boc_init` is regenerated from `Boc.__init__`
+(pytoniq_core/boc/deserialize.py: `isinstance(data, bytes)`, `bytes.fromhex`, on ValueError `base64.b64decode`) and equals the
+hand model `BocForms.inputBytes` for every bytes / str argument (`fromHex` / `b64Dec` stay the hand models of the two CPython
+library calls). -/
+theorem c03_src_forms (data : Sum Bytes (List Char)) : boc_init data = inputBytes data := src_boc_init_eq data
+
+/-- **THE ROUND TRIP with the REGENERATED emitter, the REGENERATED input-form detection and the REGENERATED parser**: for every
+spec-valid typed tree `t`, its object graph `p`, under the local no-collision hypothesis, whenever the regenerated `Cell.order`
+returns (`d`; it does with budget `6·cells+2`: `c04_src_order_total`), for each of the 6 valid option sets (`hv`; `valid_opts`)
+and within the format's limits: the regenerated `Cell.to_boc` returns bytes `bs`; the regenerated `Boc.__init__` maps `bs`, the
+hex text of `bs` and the base64 text of `bs` to `bs`; and the regenerated `Boc.deserialize` (with the constructor model) parses
+`bs` to exactly the one root `(t, p.info)` — the same tree (identical data bits, cell types and references, recursively) with the
+identical cached hashes / depths / level mask. -/
+theorem c03_roundtrip_src2 (H : Bytes → Bytes) (t : Cell) (wf : TreeWF H t) (ty : Typed t) (p : PCell)
+    (hb : Cell.build H t = some p) (nc : NoCollision p) (fuel : Nat) (d : Py.KDict PCell Unit) (h : order fuel p [] = some d)
+    (o : Opts) (hv : o.valid = true) (hn : (Py.dictKeys d).length < 2 ^ 32)
+    (hP : (payloadOf (sizeW (orderRecs (Py.dictKeys d))) (orderRecs (Py.dictKeys d))).length * 2 < 2 ^ 64) :
+    ∃ bs, to_boc fuel p o.hasIdx o.hasCrc o.hasCache o.flags = some bs ∧
+      (∀ form ∈ [Sum.inl bs, Sum.inr (hexEnc bs), Sum.inr (b64Enc bs)], boc_init form = some bs) ∧
+      Generated.BocCells.deserialize bs (Generated.BocCells.liftMk (BocParse.mkCell H)) = some [some (t, p.info)] := by
+  rw [src_order_eq] at h
+  cases ho : p.order fuel with
+  | none => rw [ho] at h; cases h
+  | some ord =>
+    rw [ho] at h
+    simp only [Option.map_some, Option.some.injEq] at h
+    subst h
+    rw [dictKeys_dictOf] at hn hP
+    obtain ⟨htb, hfb⟩ := fromBoc_toBoc H t wf ty p hb nc fuel ord ho o hv hn hP
+    obtain ⟨rest, hwf, hm⟩ := toBoc_magic p fuel ord o nc (build_ok H t p (shape_of H t wf ty) hb) ho hn hP
+    rw [hm] at htb hfb
+    refine ⟨_, by rw [src_toBoc_eq]; exact htb, ?_, by rw [c03_src_parser, hfb]; rfl⟩
+    intro form hf
+    rw [src_boc_init_eq]
+    exact forms_inputBytes rest hwf form hf
+
+/-- non-vacuity: the DAG with sharing (`dagTree`, toy hash `id`) meets all hypotheses of `c03_roundtrip_src2` with the
+regenerated `Cell.order` and budget 50 -/
+example : ∃ p d, Cell.build id dagTree = some p ∧ NoCollision p ∧ order 50 p [] = some d ∧ (Py.dictKeys d).length < 2 ^ 32 ∧
+    (payloadOf (sizeW (orderRecs (Py.dictKeys d))) (orderRecs (Py.dictKeys d))).length * 2 < 2 ^ 64 := by
+  obtain ⟨p, ord, h1, h2, h3, h4, h5⟩ := dagTree_hyps
+  refine ⟨p, dictOf ord, h1, h2, by rw [src_order_eq, h3]; rfl, ?_, ?_⟩ <;> rw [dictKeys_dictOf]
+  · omega
+  · exact h5
+
+end SrcEmit
 
 end TonVerif.Properties.C03
